@@ -1,6 +1,7 @@
 /-
   C19 — Batch verification accepts exactly the batches whose every item verifies.
 -/
+import Frost.Props.C18
 import Frost.Model.Batch
 import Frost.Proofs.Signing
 import Mathlib.Algebra.NoZeroSMulDivisors.Basic
